@@ -18,7 +18,7 @@ from nostr_relay.errors import AuthenticationError, StorageError
 from nostr_relay.storage import base as B
 from nostr_relay.storage import kv
 
-from envmodel.fake_asyncio import Loop
+from envmodel.fake_asyncio import Loop, CancelledError
 
 ID1, ID2 = "11" * 32, "22" * 32
 PK = "ab" * 32
@@ -126,9 +126,14 @@ class Conn:
         self.sent = []
         self.closed = []
         self.delivered = 0
+        self.eager = []
 
     async def ws_recv(self):
-        await self.loop.idle()
+        # eager[i]: message i is already buffered when the handler asks for it (receive() returns without
+        # yielding to the loop); otherwise the client speaks after the relay went idle
+        i = self.delivered
+        if not (i < len(self.eager) and self.eager[i]):
+            await self.loop.idle()
         if self.delivered >= len(self.messages):
             raise falcon.WebSocketDisconnected()
         self.delivered += 1
@@ -158,7 +163,7 @@ class Limiter:
         self.cleaned += 1
 
 
-def install(loop):
+def install(loop, tokens=None):
     """patch the module-level names of the repo modules for this obligation"""
     ns = loop.namespace()
     web.asyncio = ns
@@ -167,6 +172,12 @@ def install(loop):
     web.timeout = ns.timeout
     web.ClientID = ClientID
     ClientID.count = 0
+    if tokens is not None:
+        # the REAL util.ClientID with the random suffix drawn from a script (collisions are the solver's choice)
+        import nostr_relay.util as U
+        script = list(tokens)
+        U.secrets = types.SimpleNamespace(token_hex=lambda n=2: script.pop(0) if script else "ffff")
+        web.ClientID = U.ClientID
     web.json_loads = lambda tok: tok[0].messages[tok[1]]
     web.time = lambda: 0
     # Event() substitutes time.time() for a missing created_at: CrossHair's nondeterministic clock would be realised
